@@ -73,7 +73,8 @@ def rich_image(rng, ft, **geom):
     # garbage behind the end mark (still inside the second cluster)
     endpos = len(subdir_bytes(sc[0], 0, ent))
     if endpos + 64 <= 2 * bpc:
-        sub = sub[:endpos + 32] + dirent(b"GHOST   TXT", 0x20, 0, 0) + sub[endpos + 64:]
+        stale = lfn_slots("ghost of a long name", b"GHOSTO~1   ")[:32]
+        sub = sub[:endpos] + b"\0" + stale[1:] + dirent(b"GHOST   TXT", 0x20, 0, 0) + sub[endpos + 64:]
     files.append((None, b"SUBDIR     ", 0x10, sc, sub))
     files.append((None, None, 0, inner_c, inner_d)) if False else None
 
@@ -92,7 +93,10 @@ def rich_image(rng, ft, **geom):
             r += dirent(b"SECONDLABEL", 0x28, 0, 0)                                          # a label as Windows writes it: VOLUME_ID | ARCHIVE
         if roomy:                                                                            # 0x05 lead byte below a valid long-name set:
             r += lfn_slots("sigma starts the alias.txt", b"\x05IGMAS~1TXT") + dirent(b"\x05IGMAS~1TXT", 0x20, 0, 0)   # checksum over the STORED bytes
-        r += b"\0" * 32 + dirent(b"AFTEREND   ", 0x20, 0, 0)                                # behind the end mark
+        # the end mark as another implementation leaves it when it removes the LAST, long-named entry: 0x00 over the first byte of the set's first
+        # slot — the rest of that slot (attribute byte 0x0F included) and the stale slots behind it are not cleared (C07-m7)
+        gone = lfn_slots("removed last long file.txt", b"REMOVE~1TXT")
+        r += b"\0" + gone[1:] + dirent(b"REMOVE~1TXT", 0x20, 0, 0) + dirent(b"AFTEREND   ", 0x20, 0, 0)   # behind the end mark
         return r
     exp["/WRONGC~1.TXT"] = ("f", 0, b"")
     exp["/MISSIN~1.TXT"] = ("f", 0, b"")
